@@ -77,6 +77,7 @@ def hosted_policy_factory(script):
     def __init__(self, problem, **kwargs):
       del problem, kwargs
       self.n = 0
+      self.k = 0          # suggest() calls so far: state that EVERY request changes (like a grid position)
 
     def update(self, completed, all_active):
       del all_active
@@ -85,6 +86,7 @@ def hosted_policy_factory(script):
     def suggest(self, count=None):
       del count
       script.suggest_calls += 1
+      self.k += 1
       a = script.alg
       if a['kind'] in ('rpc', 'other'):
         raise svcreal.AlgorithmFailure('scripted failure')
@@ -93,12 +95,14 @@ def hosted_policy_factory(script):
     def dump(self):
       md = vz.Metadata()
       md['n'] = str(self.n)
+      md['k'] = str(self.k)
       return md
 
     def load(self, md):
       if 'n' not in md:
         raise serializable.HarmlessDecodeError('no state')
       self.n = int(md['n'])
+      self.k = int(md['k']) if 'k' in md else 0
 
   def factory(problem_statement, algorithm, policy_supporter, study_name):
     del algorithm, study_name
